@@ -176,3 +176,28 @@ def module_to_s(m):
     return '(module (axioms %s) (claims %s) (proofs %s) (subs %s))' % (
         ' '.join(map(sx.pat_to_s, ax)), ' '.join(map(sx.pat_to_s, cl)), ' '.join(map(pf_to_s, pfs)),
         ' '.join(map(module_to_s, subs)))
+
+
+def shadow_module(rng):
+    """family: an axiom with a pending substitution phi[plug/x] whose plug mentions x, instantiated with a binder on the
+    same variable (the substitution is then the identity: no freshness condition may be demanded), or with a binder on
+    another variable that the plug does not mention (the substitution goes under the binder)"""
+    x = rng.choice(gen.IDS)
+    y = rng.choice([i for i in gen.IDS if i != x])
+    k = rng.choice((0, 1, 2))
+    mvk = ('mv', k, (), (), (), (), ())
+    if rng.random() < 0.5:
+        plug_ = rng.choice((('app', ('sym', 1), ('evar', x)), ('imp', ('evar', x), ('evar', y)), ('ex', y, ('app', ('evar', x), ('evar', y)))))
+        ax = ('imp', ('esub', mvk, x, plug_), ('sym', 0)) if rng.random() < 0.5 else ('esub', mvk, x, plug_)
+        body = rng.choice((('app', ('sym', 2), ('evar', x)), ('imp', ('evar', x), ('evar', x)), ('evar', y)))
+        val = ('ex', x, body) if rng.random() < 0.7 else ('ex', y, ('app', ('sym', 2), ('evar', x))) if ('evar', y) not in (plug_[1:] if plug_[0] != 'ex' else ()) and plug_[0] == 'app' else ('ex', x, body)
+    else:
+        plug_ = rng.choice((('app', ('sym', 1), ('svar', x)), ('imp', ('sym', 0), ('svar', x))))
+        ax = ('imp', ('ssub', mvk, x, plug_), ('sym', 0)) if rng.random() < 0.5 else ('ssub', mvk, x, plug_)
+        val = ('mu', x, rng.choice((('svar', x), ('app', ('sym', 2), ('svar', x)), ('imp', ('sym', 0), ('svar', x)))))
+    pf = ('dyninst', ('axiom', ax), ((k, val),))
+    try:
+        claims = [conc(pf)]
+    except pt.Raise:
+        return gen_module(rng, 1)
+    return ('module', [ax], claims, [pf], [])
